@@ -72,4 +72,9 @@ SPECS = {
         "info_meaning": "[single-row reads judged against present(decode view)[i]]",
         "assumptions": ["slice_view in the harness mirrors the layout of arrow-rs slices converted by marrow; the layouts are compared on every arrow-rs slice of the run (distribution key arrow_slice_layout)"],
     },
+    "C17": {
+        "id": "C17", "runners": ["RunC17"],
+        "info_meaning": "[reads of corrupted views; reads compared with the reader model]",
+        "assumptions": ["corruptions are single points (and seeded pairs) applied to arrays the writer produced; lengths are only changed by small amounts so that every row can be read", "fixed-size list positions idx*n are computed without overflow in the model (usize overflow needs a view whose declared length exceeds 2^32 rows)", "reads go through deserialize_any; typed requests share the same accessors (ViewAccess::get, offsets, bitset_is_set)"],
+    },
 }
